@@ -81,7 +81,7 @@ def params(draw, row, N, cplx, windows=None):
         IP = draw(st.integers(2, max(2, min(N // 3, 10))))
         return {"IP": IP, "NSIG": draw(st.integers(1 if IP > 1 else 0, IP - 1))}
     if row.startswith("mtm_"):
-        NW = draw(st.sampled_from([1.5, 2.0, 2.5, 3.0, 4.0, 1.0, 1.25]))
+        NW = draw(st.sampled_from([v for v in (1.5, 2.0, 2.5, 3.0, 4.0, 1.0, 1.25, 6.0, 8.0) if 2 * v < N - 1]))
         kmax = int(2 * NW)
         kmin = 2 if row == "mtm_adapt" else 1
         # one case in four leaves k to its default (round(2 NW) tapers)
